@@ -383,7 +383,10 @@ func mergeRoots(
 
 			newTree, err := tree.Clone(ctx)
 			if err != nil {
-				if cfg.LogFunc != nil && skipUnreadable {
+				if !skipUnreadable || !isNoSuchKey(err) {
+					return nil, nil, 0, fmt.Errorf("clone for merging %v: %w", key, err)
+				}
+				if cfg.LogFunc != nil {
 					cfg.LogFunc(fmt.Sprintf("skipping merge un-cloneable tree %v: %v", key, err))
 				}
 				continue
@@ -393,7 +396,13 @@ func mergeRoots(
 				return nil, nil, 0, err
 			}
 			if err != nil {
-				if cfg.LogFunc != nil && skipUnreadable {
+				// Only a version whose objects were removed (vacuumed) may be
+				// skipped; any other failure must not pass for a successful
+				// open that silently lacks that version's rows.
+				if !skipUnreadable || !isNoSuchKey(err) {
+					return nil, nil, 0, fmt.Errorf("merge %v: %w", key, err)
+				}
+				if cfg.LogFunc != nil {
 					cfg.LogFunc(fmt.Sprintf("skipping merge un-cloneable tree %v: %v", key, err))
 				}
 				continue
@@ -420,6 +429,11 @@ func mergeRoots(
 	}
 
 	return tree, mergedRoots, unmergedRoots, nil
+}
+
+func isNoSuchKey(err error) bool {
+	var ae awserr.Error
+	return errors.As(err, &ae) && ae.Code() == s3.ErrCodeNoSuchKey
 }
 
 func loadRootFromAny(ctx context.Context, persist []mast.Persist, key string) (*crdt.Root, []byte, error) {
